@@ -195,4 +195,56 @@ Schema == [
   FuzzPeerInfo |-> PeerInfoT, FuzzSetState |-> SetStateT, FuzzMessage |-> FuzzMessageT ]
 
 TypeNames == DOMAIN Schema
+
+\* ---------------------------------------------------------------------------------------------
+\* JAMNP-S "CE" request / response messages (internal/networking/handler/ce), check X09.
+\* The JAMNP-S text is not available offline: layouts follow the package's encoders and the comments
+\* in its files; where the handlers themselves are laxer than their encoders the schema is the encoder's
+\* (exact) form.  Assumptions: item counts of CE139/140 are 16-bit (as coded) with at most 2*W_M = 6144
+\* indices; a ticket attempt is any octet; CE142 preimage length is 1..100 MiB (the package's own limit);
+\* a guarantee carries 2..3 signatures with validator indices below V; an audit announcement names at
+\* least one work-report and a no-show's previous announcement is not empty (the package's Validate).
+B64 == BytesT(64)
+B96 == BytesT(96)
+Bit01 == URange(1, <<0>>, <<1>>)
+CE128ReqT == Struct(<<F("HeaderHash", H32), F("Direction", Bit01), F("MaxBlocks", U4)>>)
+CE129ReqT == Struct(<<F("HeaderHash", H32), F("KeyStart", StateKeyT), F("KeyEnd", StateKeyT), F("MaxSize", U4)>>)
+CE131ReqT == Struct(<<F("EpochIndex", U4), F("Attempt", U1), F("Proof", BytesT(784))>>)
+CE133Msg1T == Struct(<<F("CoreIndex", U2), F("WorkPackage", Rest)>>)
+CE134MappingsT == SeqX(Struct(<<F("WorkPackageHash", H32), F("SegmentRoot", H32)>>), 0, -1, 0)
+CEHashReqT == Struct(<<F("Hash", H32)>>)
+CEShardReqT == Struct(<<F("ErasureRoot", H32), F("ShardIndex", U2)>>)
+CESegReqT == Struct(<<F("ErasureRoot", H32), F("ShardIndex", U2), F("SegmentIndices", SeqX(U2, 0, 6144, 2))>>)
+CE141T == Struct(<<F("HeaderHash", H32), F("Bitfield", PBits(C, (C + 7) \div 8)), F("Signature", B64)>>)
+CE142T == Struct(<<F("ServiceID", U4), F("Hash", H32), F("PreimageLength", URange(4, <<1, 0, 0, 0>>, <<0, 0, 64, 6>>))>>)   \* 1 .. 100 MiB
+WorkReportEntryT == Struct(<<F("CoreIndex", U2), F("WorkReportHash", H32)>>)
+CE144AnnT == Struct(<<F("WorkReports", SeqX(WorkReportEntryT, 1, -1, 0)), F("Signature", B64)>>)
+NoShowT == Struct(<<F("ValidatorIndex", U2), F("PreviousAnnouncement", BlobMin(1))>>)
+SubEvT == Struct(<<F("BandersnatchSig", B96), F("NoShows", SeqX(NoShowT, 0, -1, 0))>>)
+CE144Ev0T == Struct(<<F("BandersnatchSig", B96)>>)
+CE144EvN(n) == Struct(<<F("SubsequentEvidence", FSeq(n, SubEvT))>>)
+CE144HeadFields == <<F("HeaderHash", H32), F("Tranche", U1), F("Announcement", CE144AnnT)>>
+CE144Msg1T == Struct(CE144HeadFields)
+CE144T == DStruct(CE144HeadFields, "Evidence", "ce144", 2, <<CE144Ev0T, SubEvT>>)
+\* what parseMsg1 / parseMsg2 accept on their own (the announcement is validated afterwards: at least one work-report,
+\* no empty previous announcement)
+CE144Msg1ParseT == Struct(<<F("HeaderHash", H32), F("Tranche", U1),
+                            F("Announcement", Struct(<<F("WorkReports", SeqX(WorkReportEntryT, 0, -1, 0)), F("Signature", B64)>>))>>)
+SubEvParseT == Struct(<<F("BandersnatchSig", B96), F("NoShows", SeqX(Struct(<<F("ValidatorIndex", U2), F("PreviousAnnouncement", Blob)>>), 0, -1, 0))>>)
+CE144EvParseN(n) == Struct(<<F("SubsequentEvidence", FSeq(n, SubEvParseT))>>)
+GuaranteeSigT == Struct(<<F("ValidatorIndex", URange(2, <<0, 0>>, LE(V - 1, 2))), F("Signature", B64)>>)
+CE145GuaranteeT == Struct(<<F("Slot", U4), F("Signatures", SeqX(GuaranteeSigT, 2, 3, 0))>>)
+CE145HeadFields == <<F("EpochIndex", U4), F("ValidatorIndex", U2), F("Validity", Bit01), F("WorkReportHash", H32), F("Signature", B64)>>
+CE145T == DStruct(CE145HeadFields, "Guarantee", "flag0", 3, <<Some(CE145GuaranteeT), NoneT>>)
+
+CESchema == [
+  CE128Req |-> CE128ReqT, CE129Req |-> CE129ReqT, CE131Req |-> CE131ReqT, CE133Msg1 |-> CE133Msg1T, CE134Mappings |-> CE134MappingsT,
+  CE135 |-> ReportGuaranteeT, CE136Req |-> CEHashReqT, CE137Req |-> CEShardReqT, CE138Req |-> CEShardReqT, CE139Req |-> CESegReqT,
+  CE140Req |-> CESegReqT, CE141 |-> CE141T, CE141Stream |-> CE141T, CE142 |-> CE142T, CE142Stream |-> CE142T, CE143Req |-> CEHashReqT,
+  CE144 |-> CE144T, CE144Msg1 |-> CE144Msg1ParseT, CE144Ev0 |-> CE144Ev0T, CE144Ev1 |-> CE144EvParseN(1), CE144Ev2 |-> CE144EvParseN(2),
+  CE145 |-> CE145T, CE145Guarantee |-> CE145GuaranteeT, CE147Req |-> CEHashReqT ]
+CETypeNames == DOMAIN CESchema
+
+\* lookup over both tables (the trace, generator and model-check modules use this one)
+AnySchema == [n \in TypeNames \cup CETypeNames |-> IF n \in TypeNames THEN Schema[n] ELSE CESchema[n]]
 =============================================================================
